@@ -468,7 +468,10 @@ class ScaledInteger(HasUnit, DataType):
     def import_value(self, value):
         """returns a python object from serialisation"""
         try:
-            return self.scale * int(value)
+            intval = int(value + 0)  # do not accept strings here
+            if intval != value:  # do not truncate fractions silently
+                raise ValueError
+            return self.scale * intval
         except Exception:
             raise WrongTypeError(f'can not import {shortrepr(value)} to scaled') from None
 
